@@ -209,6 +209,9 @@ def judge(case):
     off = build.build_font(dict(cfg, reuse_tolerance=-1), srcs)
     if on.error is not None or off.error is not None:
         e = on.error or off.error
+        if on.error is not None and off.error is not None and type(on.error) is type(off.error):
+            v.rejected = "both builds raise " + type(e).__name__  # e.g. gradient geometry beyond int16 at a large em scale
+            return v
         v.fail("build-error", type(e).__name__, {"error": repr(e)[:300]})
         return v
     t_on = _family_tags(on.font, case, v, "on")
